@@ -276,6 +276,12 @@ E("look", 1, lambda S: etl.look(S[0]), "stream nonview", norm=str, ahead=7)
 E("lookall", 1, lambda S: etl.lookall(S[0]), "nonview", norm=str)
 E("see", 1, lambda S: etl.see(S[0]), "stream nonview", norm=str, ahead=7)
 E("listoflists", 1, lambda S: etl.listoflists(S[0]), "nonview eager", norm=lambda x: [tuple(r) for r in x], empty=[H])
+E("listoftuples", 1, lambda S: etl.listoftuples(S[0]), "nonview eager", norm=lambda x: [tuple(r) for r in x], empty=[H])
+E("tupleoflists", 1, lambda S: etl.tupleoflists(S[0]), "nonview eager", norm=lambda x: [tuple(r) for r in x], empty=[H])
+E("tupleoftuples", 1, lambda S: etl.tupleoftuples(S[0]), "nonview eager", norm=lambda x: [tuple(r) for r in x], empty=[H])
+E("parsecounter", 1, lambda S: etl.parsecounter(S[0], "s"), "nonview eager rect", norm=lambda t: (sorted(t[0].items()), sorted(t[1].items())),
+  empty=([('float', 0), ('int', 0)], [('float', 0), ('int', 0)]))
+E("stringpatterncounter", 1, lambda S: etl.stringpatterncounter(S[0], "s"), "nonview eager rect", norm=lambda c: sorted(c.items()), empty=[])
 E("columns", 1, lambda S: etl.columns(S[0]), "nonview eager rect", norm=lambda d: list(d.items()),
   empty=[(f, []) for f in H])
 E("facetcolumns", 1, lambda S: etl.facetcolumns(S[0], "k"), "nonview eager rect",
